@@ -220,7 +220,7 @@ def run(ctx):
                 continue
             if k in ("normal", "student", "chi2") and v2 > v1 + 1e-12 * max(1, abs(v1)):
                 viol.append((k, a2, n, v2, "not monotone: value at %.6g is %.12g, at %.6g is %.12g" % (a1, v1, a2, v2)))
-            if k == "nd" and v2 < v1 - 1e-15:
+            if k == "nd" and v2 < v1 - 1e-14:      # a few ulps at 1.0 are rounding, not a defect
                 viol.append((k, a2, n, v2, "distribution function not monotone between %.6g and %.6g" % (a1, a2)))
     # symmetry + inverse relation through the harness
     sym_in = "".join("normal %s\nnormal %s\nstudent %s 7\nstudent %s 7\n" % (hx(a), hx(1 - a), hx(a), hx(1 - a)) for a in alphas[:40])
